@@ -21,8 +21,8 @@ from . import common
 from .common import HarnessError, Violation, case_hash, sig_hash
 
 NSHARDS_DEFAULT = 16
-OUT_DIR = os.path.join(common.VERIF_DIR, 'out', 'violations')
-EVIDENCE_DIR = os.path.join(common.VERIF_DIR, 'evidence')
+OUT_DIR = os.environ.get('VERIF_OUT_DIR') or os.path.join(common.VERIF_DIR, 'out', 'violations')
+EVIDENCE_DIR = os.environ.get('VERIF_EVIDENCE_DIR') or os.path.join(common.VERIF_DIR, 'evidence')
 CORPUS_DIR = os.path.join(common.VERIF_DIR, 'corpus')
 KNOWN_FILE = os.path.join(common.VERIF_DIR, 'known_findings.json')
 
